@@ -51,7 +51,7 @@ def cases(tier, seed):
         for ci, cfg in enumerate(cfgs):
             if tier == "quick" and (si + ci) % 4 != seed % 4 and cfg["newton"] != "Globalized" and si % 3 != 0:
                 continue  # quick: every spec with every Globalized config, a third of the specs with everything, plus one seed slice
-            for sc in (G.scalings_of(spec, (0, 1, 4)) if tier == "thorough" else G.scalings_of(spec, (0, 1))):
+            for sc in (G.scalings_of(spec, (0, 1 if (si + ci) % 2 else 4)) if tier == "thorough" else G.scalings_of(spec, (0, 1))):
                 c = dict(cfg); c["iteration_limit"] = H
                 out.append({"spec": spec, "cfg": c, "sc": sc})
     # solve() without a start: the default start is the origin projected onto the box (boxes below exclude 0 for some variables)
